@@ -59,7 +59,7 @@ def IterSt.setPos (s : IterSt) (p : Nat) : IterSt := { s with cur := s.cur.set s
 
 def initIter (banks : List Bank) : IterSt := ⟨0, List.replicate banks.length 0⟩
 
-/-- `labelalign` is honoured for every symbol node of depth 0 (labels *and* constants) -/
+/-- `labelalign` is honoured for every *label* of depth 0 (finding F57, repaired: constants were padded too) -/
 def visitSymbol (banks : List Bank) (s : IterSt) (depth : Nat) : Except LayErr IterSt :=
   match banks[s.bank]? with
   | none => .error .badBank
@@ -77,7 +77,7 @@ def visitSymbol (banks : List Bank) (s : IterSt) (depth : Nat) : Except LayErr I
 def visit (banks : List Bank) (s : IterSt) : RItem → Except LayErr IterSt
   | .bank k => .ok { s with bank := k }
   | .label depth _ => visitSymbol banks s depth
-  | .const depth => visitSymbol banks s depth
+  | .const _ => .ok s
   | _ => .ok s
 
 /-- `advance_address` for the item just visited -/
